@@ -63,6 +63,9 @@ class ExportConfigFortran(ExportConfig):
             name = self._rename(name)
             value, shape = self._parse_value(param, param.value)
             dtype = self._parse_dtype(param, value)
+            if shape is not None and isinstance(param, StringType):
+                # elements of different lengths need an array constructor with an explicit type
+                value = f"{dtype} :: {value}"
             if shape is None:
                 lines.append(f"  {dtype}, parameter :: {name} = {value};")
             else:
